@@ -187,11 +187,7 @@ def run_streams(ctx, spec):
         failures += spec["static"](ctx)
     # property oracle on the implementation
     ofail = spec["oracle"](ctx, cases, impl, model)
-    nof = 0
     for f in ofail:
-        nof += 1
-        if nof > 40:
-            break
         f["kind"] = "oracle"
         failures.append(f)
     if ofail:
@@ -1905,4 +1901,319 @@ PROPS["C17"] = {
     "rule": "generated media and master playlists, repository fixtures, valid and mutated texts of every tag and attribute type that offers into_owned() (9 tags, 6 types; segments through the playlists), attribute-rich EXT-X-DATERANGE tags; for each accepted value v: v.clone().into_owned() and v.clone() must be ==, have the same observation and the same to_string(); the three media entry points are run on the same texts; non-trivial = accepted value",
     "explanation": "theorems (over lean/Hls/Generated/IntoOwned.lean, regenerated from the 19 fn into_owned bodies on every run): *_id for all 19 types (into_owned is the identity on observable content), entry_points_agree, owned_same_text; oracle on the implementation: ==, equal observation, equal text for into_owned() and clone(); equal results of TryFrom / FromStr / builder.parse",
     "assumptions": ["#[derive(Clone)] is structural (trusted)", "the translator recognises only ownership-only wrappers (Cow::Owned(x.into_owned()), .map(..into_owned..), .into_iter().map(..).collect(), plain move); any other expression is reported as a broken tie"],
+}
+
+
+# ------------------------------------------------------------------------------------------
+# C14
+
+def c14_media_rule(t, uri, group, name, default, auto, forced, instream):
+    """EXT-X-MEDIA rules from the property text; arguments: values or None (absent); invalid enum = 'BAD'"""
+    if t is None or t == "BAD" or not group or not name:
+        return False
+    if "BAD" in (default, auto, forced, instream):
+        return False
+    if t == "SUBTITLES" and not uri:
+        return False
+    if t == "CLOSED-CAPTIONS" and (uri or not instream):
+        return False
+    if t != "CLOSED-CAPTIONS" and instream:
+        return False
+    if forced == "YES" and t != "SUBTITLES":
+        return False
+    if default == "YES" and auto == "NO":
+        return False
+    return True
+
+
+def c14_build(ctx):
+    cases = []
+    types = ["AUDIO", "VIDEO", "SUBTITLES", "CLOSED-CAPTIONS", None, "BAD"]
+    yn = [None, "YES", "NO"]
+    for t, uri, group, name, d, a, f, ins in itertools.product(types, [None, "u"], [None, "g"], [None, "n"], yn + ["BAD"], yn, yn, [None, "CC1", "SERVICE7", "BAD"]):
+        if d == "BAD" and (a is not None or f is not None):
+            continue
+        attrs = []
+        if t:
+            attrs.append("TYPE=%s" % ("KARAOKE" if t == "BAD" else t))
+        if uri:
+            attrs.append('URI="u"')
+        if group:
+            attrs.append('GROUP-ID="g"')
+        if name:
+            attrs.append('NAME="n"')
+        for k, v in (("DEFAULT", d), ("AUTOSELECT", a), ("FORCED", f)):
+            if v:
+                attrs.append("%s=%s" % (k, "MAYBE" if v == "BAD" else v))
+        if ins:
+            attrs.append('INSTREAM-ID="%s"' % ("CC9" if ins == "BAD" else ins))
+        exp = c14_media_rule(t, uri, group, name, d, a, f, ins)
+        text = "#EXT-X-MEDIA:" + ",".join(attrs)
+        cases.append(mk("tag:ExtXMedia", text, group="MEDIA-text", meta={"exp": exp}))
+        if "BAD" not in (t, d, a, f, ins):
+            toks = []
+            if t: toks.append("type=" + t)
+            if uri: toks.append("uri=75")
+            if group: toks.append("group=67")
+            if name: toks.append("name=6e")
+            for k, v in (("default", d), ("autoselect", a), ("forced", f)):
+                if v: toks.append("%s=%d" % (k, v == "YES"))
+            if ins: toks.append("instream=" + ins)
+            cases.append(mk("build_tag:ExtXMedia", " ".join(toks), group="MEDIA-builder", meta={"exp": exp}))
+        # through the enclosing playlist
+        if exp or (d is None and a is None):
+            cases.append(mk("master", "#EXTM3U\n" + text + "\n", group="MEDIA-in-master", meta={"exp": exp}))
+    # DATERANGE
+    for idp, cl, sd, ed, du, pd, eon, xa in itertools.product([0, 1], [0, 1], [0, 1], [0, 1], [None, "1.5", "-1", "nan"], [None, "2", "-0.5"], [None, "YES", "NO"], [None, 'X-A="v"', 'X-a="v"', "X-Ä=1", "X-A_B=1"]):
+        attrs = []
+        if idp: attrs.append('ID="i"')
+        if cl: attrs.append('CLASS="c"')
+        if sd: attrs.append('START-DATE="2010-02-19T14:54:23.031+08:00"')
+        if ed: attrs.append('END-DATE="2010-02-19T15:54:23.031+08:00"')
+        if du: attrs.append("DURATION=" + du)
+        if pd: attrs.append("PLANNED-DURATION=" + pd)
+        if xa: attrs.append(xa)
+        if eon: attrs.append("END-ON-NEXT=" + eon)
+        exp = bool(idp) and du in (None, "1.5") and pd in (None, "2") and eon in (None, "YES") and xa in (None, 'X-A="v"')
+        if eon == "YES":
+            exp = exp and bool(cl) and du is None and not ed
+        text = "#EXT-X-DATERANGE:" + ",".join(attrs)
+        cases.append(mk("tag:ExtXDateRange", text, group="DATERANGE-text", meta={"exp": exp}))
+        if du in (None, "1.5") and pd in (None, "2") and eon != "NO" and xa in (None, 'X-A="v"'):
+            toks = []
+            if idp: toks.append("id=69")
+            if cl: toks.append("class=63")
+            if sd: toks.append("start=32303130")
+            if ed: toks.append("end=32303131")
+            if du: toks.append("dur=1500000000")
+            if pd: toks.append("planned=2000000000")
+            if xa: toks.append("attr=582d41:S76")
+            if eon: toks.append("eon=1")
+            cases.append(mk("build_tag:ExtXDateRange", " ".join(toks), group="DATERANGE-builder", meta={"exp": exp, "eon": eon == "YES", "class": bool(cl), "dur": du, "end": bool(ed), "id": bool(idp)}))
+    # SESSION-DATA
+    for idp, v, u, l in itertools.product([0, 1], [0, 1], [0, 1], [0, 1]):
+        attrs = (['DATA-ID="d"'] if idp else []) + (['VALUE="v"'] if v else []) + (['URI="u"'] if u else []) + (['LANGUAGE="en"'] if l else [])
+        exp = bool(idp) and (v + u == 1)
+        cases.append(mk("tag:ExtXSessionData", "#EXT-X-SESSION-DATA:" + ",".join(attrs), group="SESSION-DATA-text", meta={"exp": exp}))
+        cases.append(mk("master", "#EXTM3U\n#EXT-X-SESSION-DATA:" + ",".join(attrs) + "\n", group="SESSION-DATA-in-master", meta={"exp": exp}))
+        if not (v and u):
+            toks = (["id=64"] if idp else []) + (["value=76"] if v else []) + (["uri=75"] if u else []) + (["lang=656e"] if l else [])
+            cases.append(mk("build_tag:ExtXSessionData", " ".join(toks), group="SESSION-DATA-builder", meta={"exp": exp}))
+    # keys
+    ivs = [None, "0x000102030405060708090a0b0c0d0e0f", "0X000102030405060708090A0B0C0D0E0F", "000102030405060708090a0b0c0d0e0f", "0x0001", "0x000102030405060708090a0b0c0d0e0g"]
+    vers = [None, '"1"', '"1/2/5"', '"1/2/3/4/5/6/7/8/9"', '"1/2/3/4/5/6/7/8/9/10"', '"256"', '"x"']
+    for method, uri, iv, kv, tagname in itertools.product([None, "AES-128", "SAMPLE-AES", "NONE", "AES-256"], [None, '"k"', '""', '" "'], ivs, vers, ["ExtXKey", "ExtXSessionKey"]):
+        attrs = ([("METHOD=" + method)] if method else []) + (["URI=" + uri] if uri else []) + (["IV=" + iv] if iv else []) + (["KEYFORMATVERSIONS=" + kv] if kv else [])
+        if tagname == "ExtXKey" and method == "NONE":
+            exp = True
+        else:
+            exp = method in ("AES-128", "SAMPLE-AES") and uri == '"k"' and iv in (None, ivs[1], ivs[2]) and kv in (None, vers[1], vers[2], vers[3])
+        pfx = "#EXT-X-KEY:" if tagname == "ExtXKey" else "#EXT-X-SESSION-KEY:"
+        cases.append(mk("tag:" + tagname, pfx + ",".join(attrs), group="KEY-text", meta={"exp": exp}))
+    for method, uri in itertools.product([None, "aes"], [None, "6b", ""]):
+        toks = (["method=" + method] if method else []) + (["uri=" + uri] if uri is not None else [])
+        exp = method is not None and uri == "6b"
+        cases.append(mk("build_tag:DecryptionKey", " ".join(toks), group="KEY-builder", meta={"exp": exp, "empty_uri": uri == "" and method is not None}))
+    # stream tags
+    for bw, uri, hd, res, fr in itertools.product([None, "1", "-1", "x"], [0, 1], [None, "TYPE-0", "NONE", "TYPE-1"], [None, "1x2", "1x", "x"], [None, "25", "-1", "nan"]):
+        attrs = (["BANDWIDTH=" + bw] if bw else []) + (["HDCP-LEVEL=" + hd] if hd else []) + (["RESOLUTION=" + res] if res else [])
+        base_ok = bw == "1" and hd in (None, "TYPE-0", "NONE") and res in (None, "1x2")
+        cases.append(mk("tag:VariantStream", "#EXT-X-STREAM-INF:" + ",".join(attrs + (["FRAME-RATE=" + fr] if fr else [])) + "\nuri", group="STREAM-INF-text", meta={"exp": base_ok and fr in (None, "25")}))
+        cases.append(mk("tag:VariantStream", "#EXT-X-I-FRAME-STREAM-INF:" + ",".join(attrs + (['URI="u"'] if uri else [])), group="I-FRAME-text", meta={"exp": base_ok and bool(uri)}))
+    for bw in (None, "1"):
+        cases.append(mk("build_tag:StreamData", "bw=1" if bw else "video=76", group="STREAM-builder", meta={"exp": bw is not None}))
+    # START
+    for to, pr in itertools.product([None, "1.5", "-1.5", "x", "inf", "nan"], [None, "YES", "NO", "MAYBE"]):
+        attrs = (["TIME-OFFSET=" + to] if to else []) + (["PRECISE=" + pr] if pr else [])
+        cases.append(mk("tag:ExtXStart", "#EXT-X-START:" + ",".join(attrs), group="START-text", meta={"exp": to in ("1.5", "-1.5") and pr in (None, "YES", "NO")}))
+    # enumerated values
+    for name, good, bad in (("MediaType", G.IN_STREAM_IDS[:0] + ["AUDIO", "VIDEO", "SUBTITLES", "CLOSED-CAPTIONS"], ["audio", "KARAOKE", "", "AUDIO "]),
+                            ("HdcpLevel", ["TYPE-0", "NONE"], ["TYPE-1", "none", ""]), ("EncryptionMethod", ["AES-128", "SAMPLE-AES"], ["NONE", "AES-256", "aes-128"]),
+                            ("InStreamId", G.IN_STREAM_IDS, ["CC0", "CC5", "SERVICE0", "SERVICE64", "cc1", ""]), ("ProtocolVersion", list("1234567"), ["0", "8", "", "1.0"])):
+        for v in good:
+            cases.append(mk("type:" + name, v, group="enums", meta={"exp": True}))
+        for v in bad:
+            cases.append(mk("type:" + name, v, group="enums", meta={"exp": False}))
+    return cases
+
+
+def c14_oracle(ctx, cases, impl, model):
+    fails = []
+    for c, a in zip(cases, impl):
+        st = a.split(" ", 1)[0]
+        if st == "panic":
+            fails.append(dict(describe(c.line, a), what="panicked", law="no-panic")); continue
+        if st == "bad-op":
+            fails.append(dict(describe(c.line, a), what="harness rejected a generated script", law="harness")); continue
+        exp = c.meta["exp"]
+        if exp != (st == "ok"):
+            fails.append(dict(describe(c.line, a), what="%s: attribute rules say %s, implementation %s" % (c.group, "accept" if exp else "reject", st), law="rules",
+                              builder_without_validation=c.group == "DATERANGE-builder" and not exp and st == "ok" and c.meta.get("id", False),
+                              key_builder_empty_uri=c.group == "KEY-builder" and c.meta.get("empty_uri", False) and st == "ok"))
+    return fails
+
+
+@classifier("K6a-daterange-builder-unvalidated")
+def _k6a(f):
+    return f.get("builder_without_validation") is True
+
+
+@classifier("K6b-key-builder-empty-uri")
+def _k6b(f):
+    return f.get("key_builder_empty_uri") is True
+
+
+PROPS["C14"] = {
+    "build": c14_build, "gate": {"status"}, "oracle": c14_oracle,
+    "nontrivial": lambda c, a: True,
+    "rule": "exhaustive over presence/absence of each tag's attributes and over each enumerated attribute's value set plus one invalid value: EXT-X-MEDIA (6 TYPE cases x URI x GROUP-ID x NAME x DEFAULT/AUTOSELECT/FORCED in {absent,YES,NO[,invalid]} x INSTREAM-ID in {absent,CC1,SERVICE7,invalid}) as text, through the enclosing master playlist and through ExtXMediaBuilder; EXT-X-DATERANGE (ID, CLASS, START-DATE, END-DATE, DURATION in {absent,1.5,-1,nan}, PLANNED-DURATION, END-ON-NEXT in {absent,YES,NO}, client attribute names valid/lowercase/non-ASCII/underscore) as text and through the builder; EXT-X-SESSION-DATA 2^4 as text, in a master playlist and through the builder; EXT-X-KEY / EXT-X-SESSION-KEY (METHOD x URI x 6 IV spellings x 7 KEYFORMATVERSIONS spellings); stream tags; EXT-X-START; every value and some non-values of every enumerated type; every case counts",
+    "exhaustive": True,
+    "explanation": "theorems: media_build_ok_iff / media_parse_ok_iff (ExtXMediaBuilder::validate + required fields = the property's rules, for ALL builder states; the text parser ends in the same table), dateRange_finish_ok_iff, dateRange_end_on_next, duration_text_rejected, duration_special_rejected, client_attribute_name_rejected, sessionData_finish_ok_iff, decryptionKey_finish_ok_iff, decryptionKey_uri_nonempty, method_values, iv_syntax, versions_capacity, streamData_finish_ok_iff, iframe_needs_uri, yes_no_values, start_needs_time_offset; the two builders without validation are stated as _partial with counterexample theorems (K6); oracle: the property's rules written independently in Python per generated attribute subset",
+    "assumptions": [],
+}
+
+
+# ------------------------------------------------------------------------------------------
+# C18
+
+def c18_build(ctx):
+    rng = ctx.rng
+    cases = []
+    # exhaustive enums
+    for name, vals in (("MediaType", ["AUDIO", "VIDEO", "SUBTITLES", "CLOSED-CAPTIONS"]), ("HdcpLevel", ["TYPE-0", "NONE"]),
+                       ("EncryptionMethod", ["AES-128", "SAMPLE-AES"]), ("InStreamId", G.IN_STREAM_IDS), ("ProtocolVersion", list("1234567")),
+                       ("PlaylistType", ["#EXT-X-PLAYLIST-TYPE:VOD", "#EXT-X-PLAYLIST-TYPE:EVENT"]),
+                       ("KeyFormat", ['"identity"', '"com.apple.streamingkeydelivery"', '"urn:uuid:edef8ba9-79d6-4ace-a3c8-27dcd51d21ed"', '"com.microsoft.playready"', '"custom"', '"日本"']),
+                       ("ClosedCaptions", ["NONE", '"cc1"', '"NONE"', '"a,b"'])):
+        for v in vals:
+            cases.append(mk("type:" + name, v, group="enum", meta={"domain": True}))
+    ints = [0, 1, 255, 256, 2**32 - 1, 2**32, 2**32 + 1, 2**63, U64 - 1, U64]
+    for _ in range(ctx.n(300, 6000)):
+        ints.append(rng.randint(0, U64))
+    for n in ints:
+        cases.append(mk("type:Channels", "%d" % n, group="int", meta={"domain": True}))
+        cases.append(mk("type:Channels", "%d/JOC" % n, group="int", meta={"domain": True}))
+        cases.append(mk("type:Resolution", "%dx%d" % (n, rng.choice(ints)), group="int", meta={"domain": True}))
+        o = rng.choice(ints)
+        if n + o <= U64:
+            cases.append(mk("type:ByteRange", "%d@%d" % (n, o), group="int", meta={"domain": True}))
+        cases.append(mk("type:ByteRange", "%d" % n, group="int", meta={"domain": True}))
+    for _ in range(ctx.n(300, 6000)):
+        k = rng.randint(1, 9)
+        cases.append(mk("type:KeyFormatVersions", '"' + "/".join(str(rng.choice([0, 1, 2, 5, 255, rng.randint(0, 255)])) for _ in range(k)) + '"', group="versions", meta={"domain": True}))
+        cases.append(mk("type:InitializationVector", rng.choice(["0x", "0X"]) + "".join(rng.choice("0123456789abcdefABCDEF") for _ in range(32)), group="iv", meta={"domain": True}))
+        cases.append(mk("type:Codecs", ",".join(rng.choice(["avc1.4d401e", "mp4a.40.2", "x y", "日本", "a=b"]) for _ in range(rng.randint(1, 4))), group="codecs", meta={"domain": True}))
+        cases.append(mk("type:Value", rng.choice(['"%s"' % G.qs(rng), "0x" + "".join(rng.choice("0123456789ABCDEF") for _ in range(2 * rng.randint(0, 8))), G.f32_literal(rng)]), group="value", meta={"domain": True}))
+    # float wrappers: literals, and bit patterns through the model too
+    for _ in range(ctx.n(2000, 40000)):
+        lit = G.f32_literal(rng)
+        cases.append(mk("type:Float", lit, group="float-literal", meta={"domain": True}))
+        cases.append(mk("type:UFloat", lit, group="float-literal", meta={"domain": True}))
+    specials = ["inf", "-inf", "nan", "NaN", "infinity", "1e39", "-1e39", "3.4028235e38", "3.4028236e38", "1e-46", "-1e-46", "-0", "+0", "0.0", "1e-45"]
+    for lit in specials:
+        cases.append(mk("type:Float", lit, group="float-special", meta={"finite": None}))
+        cases.append(mk("type:UFloat", lit, group="float-special", meta={"finite": None}))
+    nbits = ctx.n(6000, 2**19)
+    for i in range(nbits):
+        r = rng.random()
+        if r < 0.5:
+            bits = rng.getrandbits(32)
+        elif r < 0.8:
+            bits = (rng.randint(0, 255) << 23) | rng.choice([0, 1, 2, 0x7fffff, 0x7ffffe, 0x400000]) | (rng.getrandbits(1) << 31)
+        else:
+            bits = rng.choice([0, 0x80000000, 1, 0x7f7fffff, 0x7f800000, 0xff800000, 0x7fc00000, 0x00800000, 0x3f800000]) ^ rng.choice([0, 1])
+        cases.append(mk("f32:Float", "%08x" % (bits & 0xffffffff), group="float-bits", meta={"domain": True}))
+        cases.append(mk("f32:UFloat", "%08x" % (bits & 0xffffffff), group="float-bits", meta={"domain": True}))
+    # durations below 10^6 s with nanosecond precision
+    for _ in range(ctx.n(3000, 100000)):
+        ns = rng.choice([rng.randint(0, 10**15 - 1), rng.randint(0, 10**10), rng.randint(0, 10**6) * NS + rng.choice([0, 1, 499999999, 500000000, 999999999])])
+        cases.append(mk("tag:ExtInf", "#EXTINF:%s," % dec9(ns), group="duration", meta={"domain": True, "ns": ns}))
+    # composite tags in their canonical domain: valid seeds + generated
+    for name in TAG_OPS:
+        for t in TAG_SEEDS[name]:
+            cases.append(mk("tag:" + name, t, group="tag-seed", meta={"domain": True}))
+    for _ in range(ctx.n(600, 12000)):
+        lay = G.Layout(rng)
+        cases.append(mk("tag:ExtXDateRange", G.gen_daterange(rng, lay), group="tag-generated", meta={"domain": True}))
+        cases.append(mk("tag:ExtXKey", "#EXT-X-KEY:" + lay.attrs(G.gen_key(rng)), group="tag-generated", meta={"domain": True, "kfv1": True}))
+        cases.append(mk("tag:ExtXSessionKey", "#EXT-X-SESSION-KEY:" + lay.attrs(G.gen_key(rng)), group="tag-generated", meta={"domain": True, "kfv1": True}))
+        sd = G.gen_stream_data(rng, ["v1"])
+        cases.append(mk("type:StreamData", lay.attrs(sd), group="tag-generated", meta={"domain": True}))
+        cases.append(mk("tag:VariantStream", "#EXT-X-STREAM-INF:" + lay.attrs(sd + ([("FRAME-RATE", "%d.%03d" % (rng.randint(0, 240), rng.randint(0, 999)))] if rng.random() < 0.5 else [])) + "\nuri.m3u8", group="tag-generated", meta={"domain": True}))
+        cases.append(mk("tag:VariantStream", "#EXT-X-I-FRAME-STREAM-INF:" + lay.attrs(sd + [("URI", '"u"')]), group="tag-generated", meta={"domain": True}))
+    return cases
+
+
+def c18_sweep(ctx):
+    """all 2^32 binary32 patterns (thorough) or a stratified 2^24 (quick) on the real float wrappers"""
+    total = 2**32
+    if ctx.quick:
+        chunk = 2**16
+        starts = [i * (total // 256) for i in range(256)]
+    else:
+        chunk = 2**24
+        starts = list(range(0, total, chunk))
+    lines = []
+    for ty in ("Float", "UFloat"):
+        for s in starts:
+            lines.append(C.req("sweepf32:" + ty, "%d %d" % (s, chunk)))
+    outs = C.run_many(C.IMPL, lines, jobs=C.NCPU)
+    checked = accepted = 0
+    bad = []
+    for l, o in zip(lines, outs):
+        t = o.split(" ")
+        if t[0] != "ok":
+            bad.append((l, o)); continue
+        checked += int(t[1]); accepted += int(t[2])
+        if int(t[3]) > 0:
+            bad.append((l, o))
+    return {"patterns_checked": checked, "accepted": accepted, "exhaustive_2^32": not ctx.quick}, bad
+
+
+def c18_oracle(ctx, cases, impl, model):
+    fails = []
+    for c, a in zip(cases, impl):
+        r = C.Resp(a)
+        if r.status == "panic":
+            fails.append(dict(describe(c.line, a), what="panicked", law="no-panic")); continue
+        if c.group == "float-special":
+            continue
+        if c.group == "float-bits":
+            bits = int(c.payload, 16)
+            finite = (bits >> 23) & 0xff != 0xff
+            should = finite and not (c.op.endswith("UFloat") and bits >> 31)
+            if should != (r.status == "ok"):
+                fails.append(dict(describe(c.line, a), what="%s accepts exactly the finite%s numbers: bits %s expected %s, got %s" % (c.op, " non-negative" if "UFloat" in c.op else "", c.payload, should, r.status), law="float-domain")); continue
+        if r.status != "ok":
+            if c.meta.get("domain") and c.group not in ("float-literal", "float-bits", "value", "tag-generated"):
+                fails.append(dict(describe(c.line, a), what="a value in the domain of %s was rejected" % c.op, law="accept"))
+            continue
+        rr = r.get("R")
+        if rr != "=":
+            k4 = bool(c.meta.get("kfv1")) and 'KEYFORMATVERSIONS="1"' in c.payload.replace(" ", "")
+            fails.append(dict(describe(c.line, a), what="%s: parsing the written text gives %s instead of the value" % (c.op, "an error" if rr == "err" else "a different value"), law="round-trip",
+                              default_versions_dropped=k4))
+        if "ns" in c.meta:
+            m = parse_obs(r.obs)
+            if int(m[0]) != c.meta["ns"]:
+                fails.append(dict(describe(c.line, a), what="EXTINF %s parsed to %s ns" % (dec9(c.meta["ns"]), m[0]), law="duration-exact"))
+    cov, bad = c18_sweep(ctx)
+    ctx.sweep = cov
+    for l, o in bad[:5]:
+        fails.append(dict(describe(l, o), what="f32 sweep: a bit pattern is wrongly accepted/rejected or does not survive to_string -> parse: %s" % o, law="float-sweep"))
+    return fails
+
+
+@classifier("K4-default-keyformatversions-dropped")
+def _k4(f):
+    return f.get("default_versions_dropped") is True
+
+
+PROPS["C18"] = {
+    "build": c18_build, "gate": {"status", "obs", "T", "R", "V"}, "oracle": c18_oracle,
+    "nontrivial": lambda c, a: a.startswith("ok"),
+    "rule": "every variant of every enumerated type (67 in-stream ids, 7 versions, ...), boundary and random 64-bit integers through Channels / Resolution / ByteRange, random key-format-version lists (1-9 items), 128-bit IVs in both hex cases, codec lists, client attribute values of the three kinds, float literals and random / structured binary32 bit patterns on both float wrappers (also run through the model's float emulation), durations below 10^6 s with nanosecond precision, seeds and generated instances of every composite tag; plus a sweep of binary32 patterns executed inside the harness (quick: 256 strata x 2^16 per wrapper; thorough: all 2^32 per wrapper): accept iff finite (and sign bit clear), to_string -> parse gives the same bits; non-trivial = accepted value",
+    "explanation": "theorems: encryptionMethod_rt, hdcpLevel_rt, mediaType_rt, playlistType_rt, protocolVersion_rt, inStreamId_rt (all 67, decide +kernel over the table regenerated from the source), channels_rt, resolution_rt, byteRange_rt, codecs_rt, hexDecode_encode / natToBytes_spec / hexEncode_utf8Len / value_hex_rt, keyFormat_rt, closedCaptions_rt, keyFormatVersions_rt, float_accepts_finite; FL1/FL2 are the named IEEE-754 hypotheses; not yet proved in Lean: InitializationVector, Value::String/Float and the attribute-list tags (C03/C04 carry their tag-level statements) - for those the check relies on the correspondence run and the implementation oracle R:= (parse(to_string(v)) has the same observation as v)",
+    "extra_coverage": lambda ctx: {"f32_sweep": getattr(ctx, "sweep", {})},
+    "assumptions": ["FL1 (shortest-digit printing of binary32 round-trips) and FL2 (durations < 10^6 s through f64) are validated by execution, not proved"],
 }
